@@ -582,6 +582,10 @@ func (res *Response) flush(conn io.Writer) error {
 		}
 		pdata = mempool.AppendString(pdata, "0\r\n")
 		for k, v := range res.trailer {
+			// a trailer value is usually known only after the body has been written
+			if vv := res.header[k]; len(vv) > 0 {
+				v = vv[0]
+			}
 			pdata = mempool.AppendString(pdata, k)
 			pdata = mempool.AppendString(pdata, ": ")
 			pdata = mempool.AppendString(pdata, v)
